@@ -159,6 +159,7 @@ func (r *recorder) add(tag string, id int, p pt, rr, v float64) {
 }
 
 func (r *recorder) reset() {
+	r.inexact = false
 	r.ents = nil
 	r.seen = map[string]bool{}
 }
